@@ -609,3 +609,76 @@ Proof.
   intros H i j Hi Hj. pose proof (binom_nonneg i j). pose proof (binom_mono i n j Hi).
   pose proof (binom_max_entry n k j Hj). lia.
 Qed.
+
+(* ================================================================== H. the overflow test of the Cns constructor *)
+Definition Mx (k i : nat) : Z := binom i (Nat.min (i / 2) k).
+Lemma Mx_mono k i : Mx k i <= Mx k (S i).
+Proof.
+  unfold Mx. pose proof (binom_mono i (S i) (Nat.min (i / 2) k) ltac:(lia)).
+  pose proof (binom_max_entry (S i) k (Nat.min (i / 2) k) (Nat.le_min_r _ _)). lia.
+Qed.
+Lemma wrap_row_nth W r j : W <> 0 -> nth j (wrap_row W r) 0 = (nth j (0 :: r) 0 + nth j r 0) mod W.
+Proof.
+  intros HW. unfold wrap_row.
+  set (L := zip_add (0 :: r) (r ++ [0])).
+  assert (E : nth j (map (fun x => x mod W) L) 0 = (nth j L 0) mod W).
+  { rewrite <- (map_nth (fun x => x mod W) L 0 j). cbv beta. rewrite Z.mod_0_l by exact HW. reflexivity. }
+  rewrite E. unfold L. rewrite zip_add_nth by (cbn [length]; rewrite app_length; cbn [length]; lia).
+  rewrite nth_app_zero. reflexivity.
+Qed.
+
+Lemma wrap_row_length W r : length (wrap_row W r) = S (length r).
+Proof. unfold wrap_row. rewrite map_length, zip_add_length; cbn [length]; rewrite ?app_length; cbn [length]; lia. Qed.
+
+(* the constructor returns (no overflow_error) exactly when the largest entry C(i, min(i/2,k)) fits, and then its table is exact *)
+Theorem cns_ctor_spec W k : 2 <= W -> forall i,
+  match cns_ctor_rows W k i with
+  | Some r => Mx k i < W /\ forall j, (j <= k)%nat -> nth j r 0 = binom i j
+  | None => W <= Mx k i
+  end.
+Proof.
+  intros HW. induction i as [|i IH].
+  - cbn [cns_ctor_rows]. split; [unfold Mx; cbn; lia|]. intros j _. destruct j as [|[|j]]; reflexivity.
+  - cbn [cns_ctor_rows]. destruct (cns_ctor_rows W k i) as [r|].
+    2:{ pose proof (Mx_mono k i). lia. }
+    destruct IH as [Hfit Hex].
+    (* every entry of the new row, columns <= k, is the binomial coefficient modulo W *)
+    assert (Hnew : forall j, (j <= k)%nat -> nth j (wrap_row W r) 0 = binom (S i) j mod W).
+    { intros j Hj. rewrite wrap_row_nth by lia. destruct j as [|j].
+      - cbn [nth]. rewrite Hex by lia. rewrite !binom_0. reflexivity.
+      - cbn [nth]. rewrite !Hex by lia. reflexivity. }
+    assert (Hprev : forall j, (j <= k)%nat -> 0 <= binom i j < W).
+    { intros j Hj. pose proof (binom_nonneg i j). pose proof (binom_max_entry i k j Hj). unfold Mx in Hfit. lia. }
+    set (mi := Nat.min (S i / 2) k).
+    assert (Hmi : (mi <= k)%nat) by apply Nat.le_min_r.
+    destruct (Z_lt_le_dec (Mx k (S i)) W) as [Hlt|Hge].
+    + (* fits: the row is exact and the test does not fire *)
+      assert (Hexact : forall j, (j <= k)%nat -> nth j (wrap_row W r) 0 = binom (S i) j).
+      { intros j Hj. rewrite Hnew by exact Hj. apply Z.mod_small.
+        pose proof (binom_nonneg (S i) j). pose proof (binom_max_entry (S i) k j Hj). unfold Mx in Hlt. lia. }
+      replace (nth mi (wrap_row W r) 0 <? nth mi r 0) with false.
+      * rewrite andb_false_r. split; [exact Hlt|exact Hexact].
+      * symmetry. apply Z.ltb_ge. rewrite Hexact, Hex by exact Hmi. apply binom_step.
+    + (* does not fit: the wrapped entry is smaller than the entry above it *)
+      pose proof Hge as Hge0. unfold Mx in Hge. fold mi in Hge.
+      assert (Hi : (1 <= i)%nat).
+      { destruct i; [|lia]. exfalso. unfold mi in Hge. cbn in Hge. lia. }
+      destruct mi as [|m] eqn:Em.
+      { rewrite binom_0 in Hge. lia. }
+      replace (1 <? S i)%nat with true by (symmetry; apply Nat.ltb_lt; lia).
+      replace (nth (S m) (wrap_row W r) 0 <? nth (S m) r 0) with true; [cbn [andb]; exact Hge0|].
+      symmetry. apply Z.ltb_lt. rewrite Hnew, Hex by lia.
+      change (binom (S i) (S m)) with (binom i m + binom i (S m)) in *.
+      pose proof (Hprev m ltac:(lia)). pose proof (Hprev (S m) ltac:(lia)).
+      assert (E : (binom i m + binom i (S m)) mod W = binom i m + binom i (S m) - W).
+      { symmetry. apply Z.mod_unique with (q := 1); lia. }
+      rewrite E. lia.
+Qed.
+
+Corollary cns_ctor_ok_iff k n : cns_ctor_ok k n = true <-> binom n (Nat.min (n / 2) k) < 2 ^ 128.
+Proof.
+  unfold cns_ctor_ok. pose proof (cns_ctor_spec (2 ^ 128) k ltac:(lia) n) as H.
+  destruct (cns_ctor_rows (2 ^ 128) k n); unfold Mx in H.
+  - split; [intros _; apply H|reflexivity].
+  - split; [discriminate|lia].
+Qed.
